@@ -12,6 +12,7 @@ from __future__ import annotations
 import ast
 
 from sa import mutate as M
+from sa import pattern as PT
 from sa.ctx import Ctx
 from sa.effects import Raises
 from sa.loader import AnalysisError, call_name, norm, own_nodes, parent
@@ -65,7 +66,7 @@ def rule_sp_shared(ctx: Ctx, rep: Report) -> None:
             continue
         rep.ob(rule, f"{tagname}:one_user", users == {owner}, f"{ctx.module(SP).relpath}:1", f"tag used by {sorted(users)}")
     ps = ctx.func(f"{SP}.prv_key_sum")
-    txt = norm(ps.node)
+    txt = PT.text(ps)
     rep.ob(rule, "prv_key_sum:taproot_negation", "if is_p2tr(bytes_from_octets(script_pub_key)) and mult(a)[1] % 2: a = secp256k1.n - a" in txt, ps.where(), "a taproot key with odd y is negated (sender side)")
     rep.ob(rule, "prv_key_sum:zero_refused", any(c.subject == "total" and c.op == "==" and c.value == 0 for c in refusal_constraints(ctx, ps)), ps.where(), "a zero sum is refused")
     pt = ctx.func(f"{SP}._pub_key_from_p2tr")
@@ -99,7 +100,7 @@ def rule_musig_store(ctx: Ctx, rep: Report) -> None:
     if ver:
         a = ver[0].ast.args
         rep.ob(rule, "partial_sigs_agg:key", norm(a[1]) == "x_only_pub_key" and norm(a[0]) == "session.context.msg", pa.where(), "verified under the session's aggregate key and message")
-    txt = norm(pa.node)
+    txt = PT.text(pa)
     rep.ob(rule, "partial_sigs_agg:sighash_suffix", "if psbt_in.sig_hash_type: signature += psbt_in.sig_hash_type.to_bytes(1, 'big')" in txt, pa.where(), "a non-default hash type is appended")
     ap = ctx.func(f"{PM}.assert_valid_participants")
     rep.ob(rule, "assert_valid_participants", bool(refusal_constraints(ctx, ap)) and ("key_agg" in norm(ap.node)), ap.where(), "the aggregate key is recomputed from the participants and compared")
